@@ -15,8 +15,21 @@ static int h_in_arena (const volatile void *a, size_t n)
   if (NULL == h_arena) return 1;
   return p >= h_arena && n <= h_arena_size && (size_t) (p - h_arena) <= h_arena_size - n;
 }
-static void h_poison (const volatile void *a, size_t n) { if (h_in_arena (a, n)) __asan_poison_memory_region (a, n); else h_oob = 1; }
-static void h_unpoison (const volatile void *a, size_t n) { if (h_in_arena (a, n)) __asan_unpoison_memory_region (a, n); else h_oob = 1; }
+/* out of the arena: recorded; the part inside the arena is still (un)poisoned, so that the code's own
+   accesses to the block it believes it has do not hide the report behind an ASan abort */
+static void h_clip (const volatile void *a, size_t n, int poison)
+{
+  const uint8_t *p = (const uint8_t *) a;
+  if (h_in_arena (a, n)) { if (poison) __asan_poison_memory_region (a, n); else __asan_unpoison_memory_region (a, n); return; }
+  h_oob = 1;
+  if (p >= h_arena && p < h_arena + h_arena_size)
+  {
+    size_t m = (size_t) (h_arena + h_arena_size - p);
+    if (poison) __asan_poison_memory_region (a, m); else __asan_unpoison_memory_region (a, m);
+  }
+}
+static void h_poison (const volatile void *a, size_t n) { h_clip (a, n, 1); }
+static void h_unpoison (const volatile void *a, size_t n) { h_clip (a, n, 0); }
 #undef ASAN_POISON_MEMORY_REGION
 #undef ASAN_UNPOISON_MEMORY_REGION
 #define ASAN_POISON_MEMORY_REGION(a,n) h_poison ((a), (n))
@@ -24,12 +37,19 @@ static void h_unpoison (const volatile void *a, size_t n) { if (h_in_arena (a, n
 #endif
 #include "memorypool.c"
 #include "common/lp.h"
+#ifdef MHD_ASAN_POISON_ACTIVE
+#include <sys/wait.h>
+#include <fcntl.h>
+#endif
 
 #define MAXB 256
 struct blk { uint8_t *ptr; size_t len; int front; };
 static struct blk live[MAXB];
 static int nlive;
 static struct MemoryPool *pool;
+#ifdef MHD_ASAN_POISON_ACTIVE
+static struct MemoryPool *pool_fwd (void) { return pool; }
+#endif
 
 #ifdef MHD_ASAN_POISON_ACTIVE
 /* pos/end + the addressable (not user-poisoned) ranges of the arena, run-length coded */
@@ -46,7 +66,9 @@ static void st (void)
   if (! any) putchar ('-');
 }
 #define H_OOB_BEGIN() (h_oob = 0)
-#define H_OOB_CHECK() if (h_oob) { puts ("fault unpoison-out-of-arena"); continue; }
+/* after such a fault the harness' own book-keeping of the blocks is void: nothing more on this pool */
+static int h_dead;
+#define H_OOB_CHECK() if (h_oob) { h_dead = 1; puts ("fault unpoison-out-of-arena"); continue; }
 #else
 static void st (void) { printf ("pos=%zu end=%zu", pool->pos, pool->end); }
 #define H_OOB_BEGIN() ((void) 0)
@@ -55,7 +77,39 @@ static void st (void) { printf ("pos=%zu end=%zu", pool->pos, pool->end); }
 static void erase (int i) { memmove (&live[i], &live[i+1], (size_t) (nlive - i - 1) * sizeof(live[0])); nlive--; }
 static void push (uint8_t *p, size_t len, int front) { live[nlive].ptr = p; live[nlive].len = len; live[nlive].front = front; nlive++; }
 static void blkline (uint8_t *p, size_t len)
-{ printf ("blk %zu %zu ", (size_t) (p - pool->memory), len); st (); putchar ('\n'); }
+{ if (0 != ((uintptr_t) p) % ALIGN_SIZE) { puts ("fault misaligned-pointer"); return; }
+  printf ("blk %zu %zu ", (size_t) (p - pool->memory), len); st (); putchar ('\n'); }
+
+#ifdef MHD_ASAN_POISON_ACTIVE
+/* A size within two alignment units of SIZE_MAX: the call is tried in a forked child first.  If the child is
+   aborted by the sanitizer (the pool copying / poisoning outside its arena) the operation is reported as
+   "fault … (call aborts)" and the batch goes on; otherwise the call is made for real. */
+static struct MemoryPool *pool_fwd (void);
+static int h_call_aborts (int kind, uint8_t *old, size_t old_size, size_t sz, int from_end)
+{
+  pid_t pid; int st = 0;
+  if (sz <= SIZE_MAX - 2 * ALIGN_SIZE) return 0;
+  fflush (stdout);
+  pid = fork ();
+  if (pid < 0) return 0;
+  if (0 == pid)
+  {
+    size_t need; int fd = open ("/dev/null", O_WRONLY);
+    struct MemoryPool *p = pool_fwd ();
+    if (fd >= 0) { dup2 (fd, 1); dup2 (fd, 2); }
+    if (0 == kind) (void) MHD_pool_allocate (p, sz, 0 != from_end);
+    else if (1 == kind) (void) MHD_pool_try_alloc (p, sz, &need);
+    else (void) MHD_pool_reallocate (p, old, old_size, sz);
+    _exit (0);
+  }
+  if (pid != waitpid (pid, &st, 0)) return 0;
+  return !(WIFEXITED (st) && 0 == WEXITSTATUS (st));
+}
+#define H_ABORTS(kind,old,osz,sz,fe) \
+  if (h_call_aborts ((kind), (old), (osz), (sz), (fe))) { h_dead = 1; puts ("fault unpoison-out-of-arena (call aborts)"); continue; }
+#else
+#define H_ABORTS(kind,old,osz,sz,fe) ((void) 0)
+#endif
 
 int main (void)
 {
@@ -71,7 +125,7 @@ int main (void)
       if (pool) MHD_pool_destroy (pool);
       nlive = 0;
 #ifdef MHD_ASAN_POISON_ACTIVE
-      h_arena = NULL;
+      h_arena = NULL; h_dead = 0;
 #endif
       pool = MHD_pool_create ((size_t) a);
       if (!pool) { puts ("bad-op"); continue; }
@@ -89,9 +143,14 @@ int main (void)
       continue;
     }
     if (!pool || nlive >= MAXB - 1) { puts ("bad-op"); continue; }
+#ifdef MHD_ASAN_POISON_ACTIVE
+    if (h_dead) { puts ("bad-op"); continue; }
+#endif
     if (l.n == 3 && !strcmp (l.w[0], "alloc") && lp_u64 (l.w[1], &a) && lp_u64 (l.w[2], &b))
     {
-      uint8_t *r = MHD_pool_allocate (pool, (size_t) a, b != 0);
+      uint8_t *r;
+      H_ABORTS (0, NULL, 0, (size_t) a, b != 0);
+      r = MHD_pool_allocate (pool, (size_t) a, b != 0);
       H_OOB_CHECK ();
       if (r) { push (r, (size_t) a, b == 0); blkline (r, (size_t) a); }
       else { printf ("null "); st (); putchar ('\n'); }
@@ -99,7 +158,9 @@ int main (void)
     else if (l.n == 2 && !strcmp (l.w[0], "try") && lp_u64 (l.w[1], &a))
     {
       size_t need = 12345;
-      uint8_t *r = MHD_pool_try_alloc (pool, (size_t) a, &need);
+      uint8_t *r;
+      H_ABORTS (1, NULL, 0, (size_t) a, 0);
+      r = MHD_pool_try_alloc (pool, (size_t) a, &need);
       H_OOB_CHECK ();
       if (r) { push (r, (size_t) a, 0); blkline (r, (size_t) a); }
       else { printf ("null need=%zu ", need); st (); putchar ('\n'); }
@@ -109,6 +170,7 @@ int main (void)
       uint8_t *r;
       if (!strcmp (l.w[1], "-"))
       {
+        H_ABORTS (2, NULL, 0, (size_t) b, 0);
         r = MHD_pool_reallocate (pool, NULL, 0, (size_t) b);
         H_OOB_CHECK ();
         if (r) { push (r, (size_t) b, 1); blkline (r, (size_t) b); }
@@ -116,6 +178,7 @@ int main (void)
       }
       else if (lp_u64 (l.w[1], &a) && a < (uint64_t) nlive && live[a].front)
       {
+        H_ABORTS (2, live[a].ptr, live[a].len, (size_t) b, 0);
         r = MHD_pool_reallocate (pool, live[a].ptr, live[a].len, (size_t) b);
         H_OOB_CHECK ();
         if (r) { erase ((int) a); push (r, (size_t) b, 1); blkline (r, (size_t) b); }
